@@ -648,6 +648,10 @@ def run_replay(prop, unit, fails, seed, outpath):
            "oracles_tried": names, "witness": None}
     found = False
     rdir = os.path.join(ROOT, "replay")
+    if os.environ.get("VERIF_NO_REPLAY"):
+        # used by the seed matrix only (a rebuild of the replay crate per seeded tree costs minutes): the verdict does not depend on it
+        rec["oracle_log"] = ["replay search skipped (VERIF_NO_REPLAY)"]
+        names = []
     if names and os.path.isdir(rdir):
         env = dict(os.environ, CARGO_TARGET_DIR=os.path.join(BUILD, "replay-target"), CARGO_NET_OFFLINE="true")
         for orc in names:
